@@ -126,6 +126,22 @@ def sim_with_initial_inputs(d, init):
         d.S_init = saved
 
 
+def apply_valuation(d, sim, pv, stats):
+    """Set all input ports and settle.  The emitted design decomposes an expression into signals of different
+    delta depth, so changing several inputs at once can produce transient operand combinations (e.g. a zero
+    divisor for one delta cycle) although the old and the new valuation are both inside the alphabet.  Only settled
+    values are compared: if the transition raises a run-time error the valuation is applied to a fresh simulation
+    as its initial input values (no transition); an error that persists there is a property of the valuation."""
+    try:
+        sim.set_many(pv)
+        return sim
+    except rt.SimError:
+        stats["glitch_restarts"] = stats.get("glitch_restarts", 0) + 1
+        init = {"clk": 0}
+        init.update(pv)
+        return sim_with_initial_inputs(d, init)
+
+
 def compile_items(items, contexts=("c", "q")):
     """-> (status, info): status 'ok' (info = dict(design, types, vhdl)), 'rejected' (info = error text),
     'parse' (emitted text does not parse: info = text)"""
@@ -167,7 +183,7 @@ def simulate_items(items, info, vals, contexts=("c", "q")):
         init.update(port_values(i, tree, vals[i][0][0]))
     sim = sim_with_initial_inputs(d, init)
     steps = max((len(vals[i]) for i, _ in items), default=0)
-    stats = {"evaluations": 0, "open": 0}
+    stats = {"evaluations": 0, "open": 0, "glitch_restarts": 0}
     for k in range(steps):
         pv = {}
         cur = {}
@@ -176,7 +192,7 @@ def simulate_items(items, info, vals, contexts=("c", "q")):
             env, exp = vs[k % len(vs)]
             cur[i] = (env, exp, k < len(vs))
             pv.update(port_values(i, tree, env))
-        sim.set_many(pv)
+        sim = apply_valuation(d, sim, pv, stats)
         for phase in contexts:
             if phase == "q":
                 sim.clock("clk")
@@ -288,7 +304,8 @@ def _check_live(live, vals, out, contexts, allow_split):
             return
         out[i]["problems"].append({"i": i, "kind": "simerror", "ctx": contexts[0],
                                    "what": f"run-time error in the emitted design: {e}"})
-        problems, stats = [], {"evaluations": 0, "open": 0}
+        problems, stats = [], {"evaluations": 0, "open": 0, "glitch_restarts": 0}
+    out[live[0][0]]["glitch_restarts"] = out[live[0][0]].get("glitch_restarts", 0) + stats.get("glitch_restarts", 0)
     if len(live) == 1:
         out[live[0][0]]["evaluations"] = stats["evaluations"]
         out[live[0][0]]["open"] = stats["open"]
@@ -461,6 +478,7 @@ def run_trees(run: Run, trees, label=""):
             run.count("evaluations", r["evaluations"])
             run.count("valuations_open_no_claim", r["open"])
             run.count("valuations_outside_alphabet", r["outside"])
+            run.count("transition_glitch_restarts", r.get("glitch_restarts", 0))
             if r["distinct"] >= 2:
                 run.count("expressions_with_distinct_results")
             if st == "ok" and r["i"] % 400 == 0:
